@@ -518,6 +518,7 @@ namespace bloch::runtime {
         m_executed = true;
         m_functions.clear();
         m_env.clear();
+        m_frameBases.clear();
         m_measurements.clear();
         m_trackedCounts.clear();
         m_echoBuffer.clear();
@@ -601,9 +602,10 @@ namespace bloch::runtime {
     }
 
     Value RuntimeEvaluator::lookup(const std::string& name) {
-        for (auto it = m_env.rbegin(); it != m_env.rend(); ++it) {
-            auto fit = it->find(name);
-            if (fit != it->end())
+        for (size_t i = m_env.size(); i > frameBase(); --i) {
+            auto& scope = m_env[i - 1];
+            auto fit = scope.find(name);
+            if (fit != scope.end())
                 return fit->second.value;
         }
         std::shared_ptr<Object> thisObj = currentThisObject();
@@ -637,9 +639,10 @@ namespace bloch::runtime {
     }
 
     void RuntimeEvaluator::assign(const std::string& name, const Value& v) {
-        for (auto it = m_env.rbegin(); it != m_env.rend(); ++it) {
-            auto fit = it->find(name);
-            if (fit != it->end()) {
+        for (size_t i = m_env.size(); i > frameBase(); --i) {
+            auto& scope = m_env[i - 1];
+            auto fit = scope.find(name);
+            if (fit != scope.end()) {
                 Value newVal = v;
                 if (fit->second.value.type == Value::Type::Object &&
                     newVal.type == Value::Type::Object && newVal.objectValue &&
@@ -683,9 +686,10 @@ namespace bloch::runtime {
     }
 
     std::shared_ptr<Object> RuntimeEvaluator::currentThisObject() const {
-        for (auto it = m_env.rbegin(); it != m_env.rend(); ++it) {
-            auto found = it->find("this");
-            if (found != it->end() && found->second.value.objectValue)
+        for (size_t i = m_env.size(); i > frameBase(); --i) {
+            const auto& scope = m_env[i - 1];
+            auto found = scope.find("this");
+            if (found != scope.end() && found->second.value.objectValue)
                 return found->second.value.objectValue;
         }
         return {};
@@ -1210,7 +1214,10 @@ namespace bloch::runtime {
             m_currentClassCtx = cls;
             slot = defaultValueForField(field, cls->name);
             if (field.hasInitializer && field.initializer) {
-                slot = eval(field.initializer);
+                beginFrame();
+                Value init = eval(field.initializer);
+                endFrame();
+                cls->staticStorage[i] = init;
             }
             m_inStaticContext = prevStatic;
             m_currentClassCtx = prevClass;
@@ -1356,7 +1363,7 @@ namespace bloch::runtime {
                 m_inStaticContext = false;
                 m_inConstructor = false;
                 m_inDestructor = true;
-                beginScope();
+                beginFrame();
                 Value thisVal;
                 thisVal.type = Value::Type::Object;
                 thisVal.objectValue = std::shared_ptr<Object>(obj, [](Object*) {});
@@ -1367,7 +1374,7 @@ namespace bloch::runtime {
                     if (m_hasReturn)
                         break;
                 }
-                endScope();
+                endFrame();
                 m_inDestructor = prevDtor;
                 m_inConstructor = prevCtor;
                 m_inStaticContext = prevStatic;
@@ -1424,7 +1431,7 @@ namespace bloch::runtime {
                 bool prevStatic = m_inStaticContext;
                 m_currentClassCtx = cls;
                 m_inStaticContext = false;
-                beginScope();
+                beginFrame();
                 Value thisVal;
                 thisVal.type = Value::Type::Object;
                 thisVal.objectValue = obj;
@@ -1432,7 +1439,7 @@ namespace bloch::runtime {
                 m_env.back()["this"] = {thisVal, false, true};
                 Value init = eval(field.initializer);
                 slot = init;
-                endScope();
+                endFrame();
                 m_currentClassCtx = prevClass;
                 m_inStaticContext = prevStatic;
             }
@@ -1462,7 +1469,7 @@ namespace bloch::runtime {
         m_inStaticContext = false;
         m_inConstructor = true;
         m_inDestructor = false;
-        beginScope();
+        beginFrame();
         Value thisVal;
         thisVal.type = Value::Type::Object;
         thisVal.objectValue = obj;
@@ -1577,7 +1584,7 @@ namespace bloch::runtime {
             std::cerr << "[ctor] " << cls->name << " done" << std::endl;
         }
 
-        endScope();
+        endFrame();
         m_currentClassCtx = prevClass;
         m_inStaticContext = prevStatic;
         m_inConstructor = prevCtor;
@@ -1598,7 +1605,7 @@ namespace bloch::runtime {
         m_inStaticContext = method->isStatic;
         m_inConstructor = false;
         m_inDestructor = false;
-        beginScope();
+        beginFrame();
         if (!method->isStatic) {
             Value thisVal;
             thisVal.type = Value::Type::Object;
@@ -1620,7 +1627,7 @@ namespace bloch::runtime {
             }
         }
         Value ret = m_returnValue;
-        endScope();
+        endFrame();
         m_hasReturn = prevReturn;
         m_currentClassCtx = prevClass;
         m_inStaticContext = prevStatic;
@@ -1631,7 +1638,7 @@ namespace bloch::runtime {
 
     Value RuntimeEvaluator::call(FunctionDeclaration* fn, const std::vector<Value>& args) {
         // Bind parameters, run the body until a return is hit, then unwind.
-        beginScope();
+        beginFrame();
         for (size_t i = 0; i < fn->params.size() && i < args.size(); ++i) {
             m_env.back()[fn->params[i]->name] = {args[i], false, true};
         }
@@ -1646,7 +1653,7 @@ namespace bloch::runtime {
             }
         }
         Value ret = m_returnValue;
-        endScope();
+        endFrame();
         m_hasReturn = prevReturn;
         return ret;
     }
@@ -3233,6 +3240,17 @@ namespace bloch::runtime {
     }
 
     void RuntimeEvaluator::beginScope() { m_env.push_back({}); }
+
+    void RuntimeEvaluator::beginFrame() {
+        m_frameBases.push_back(m_env.size());
+        beginScope();
+    }
+
+    void RuntimeEvaluator::endFrame() {
+        endScope();
+        if (!m_frameBases.empty())
+            m_frameBases.pop_back();
+    }
 
     void RuntimeEvaluator::endScope() {
         if (m_env.empty())
